@@ -191,14 +191,15 @@ C11Scn(p) ==
 
 ---------------------------------------------------------------------------
 (* C13: configurations with reserved / non-ASCII characters x requested URLs *)
-AQ   == {"", "tenant=a", "a=b%20c&d=%2F%3F%26&e=%C3%BC&a=2"}
+\* (the last two: a ';' inside a value, as Azure B2C policies have; a stray '%' and a valueless flag - what strict query parsers refuse)
+AQ   == {"", "tenant=a", "a=b%20c&d=%2F%3F%26&e=%C3%BC&a=2", "p=B2C_1_signin;v2&x=1", "rate=100%&flag"}
 CIDs == {"", "cl ient/&=?#%+", "ü-client-✓"}
 Scps == {<<>>, <<"profile", "email">>, <<"openid", "x+y", "ü">>, <<"myopenid", "https://api.example.com/openid.read">>}
 C13Space == IF Quick THEN [aq : AQ, cid : CIDs, sc : Scps, url : {1}] \cup [aq : AQ, cid : {""}, sc : {<<>>}, url : URLs]
             ELSE [aq : AQ, cid : CIDs, sc : Scps, url : URLs]
 C13Scn(p) ==
   LET f == [Flt("f1", TRUE, "memory") EXCEPT !.authzQuery = p.aq, !.clientId = p.cid, !.scopes = p.sc]
-      tag == IF p.aq = "" THEN "q0" ELSE IF p.aq = "tenant=a" THEN "q1" ELSE "q2"
+      tag == IF p.aq = "" THEN "q0" ELSE IF p.aq = "tenant=a" THEN "q1" ELSE IF p.aq = "p=B2C_1_signin;v2&x=1" THEN "q3" ELSE IF p.aq = "rate=100%&flag" THEN "q4" ELSE "q2"
       ctag == IF p.cid = "" THEN "c0" ELSE IF p.cid = "cl ient/&=?#%+" THEN "c1" ELSE "c2"
   IN Scn("c13/" \o tag \o "/" \o ctag \o "/s" \o ToString(Len(p.sc)) \o "/u" \o ToString(p.url), <<f>>,
          <<Browse("b1", "f1", p.url, Ans0), Logout("b1", "f1", "jar"), App("b1", "f1", "sid:1", (p.url + 3) % 10, Ans0)>>,
